@@ -1,0 +1,65 @@
+//! Verification exports (cargo feature `verif`, off by default).
+//!
+//! Thin public wrappers around crate-private entry points so the external deterministic simulator
+//! can drive them. Nothing here adds behaviour; every function forwards to the code the daemon
+//! itself runs.
+
+use std::path::Path;
+
+use rip_log::EventLog;
+use serde_json::Value;
+
+use crate::continuities::{ContinuityRunLink, ContinuityStore, ProviderCursorUpdatedPayload};
+
+/// Compile the context bundle for a run the way `run_session` does; with `append` also log the
+/// `continuity_context_selection_decided` and `continuity_context_compiled` frames.
+pub fn compile_context_for_run(
+    continuities: &ContinuityStore,
+    event_log: &EventLog,
+    snapshot_dir: &Path,
+    run: &ContinuityRunLink,
+    run_session_id: &str,
+    append: bool,
+) -> Result<Value, String> {
+    crate::session::verif_compile_context_for_run(
+        continuities,
+        event_log,
+        snapshot_dir,
+        run,
+        run_session_id,
+        append,
+    )
+}
+
+pub struct ProviderCursorUpdate {
+    pub provider: String,
+    pub endpoint: Option<String>,
+    pub model: Option<String>,
+    pub cursor: Option<Value>,
+    pub action: String,
+    pub reason: Option<String>,
+    pub run_session_id: Option<String>,
+    pub actor_id: String,
+    pub origin: String,
+}
+
+pub fn append_provider_cursor_updated(
+    continuities: &ContinuityStore,
+    continuity_id: &str,
+    update: ProviderCursorUpdate,
+) -> Result<String, String> {
+    continuities.append_provider_cursor_updated(
+        continuity_id,
+        ProviderCursorUpdatedPayload {
+            provider: update.provider,
+            endpoint: update.endpoint,
+            model: update.model,
+            cursor: update.cursor,
+            action: update.action,
+            reason: update.reason,
+            run_session_id: update.run_session_id,
+            actor_id: update.actor_id,
+            origin: update.origin,
+        },
+    )
+}
